@@ -16,7 +16,9 @@ LEVEL_TEXT = ('Decides from the source: both input implementations split lines w
               'whose language is included in `[^\\r\\n]*(\\r\\n|\\r|\\n)|[^\\r\\n]+` (no line contains an inner LF/CR/CRLF break), '
               'build their offset->line cache with the one shared builder and read it under the same guards; every ParseInfo '
               'is built from the invoked rule\'s name, the key position taken after whitespace skipping, the position at rule '
-              'exit, and lineat() of those same two offsets. The arithmetic line/column for every text x offset is not decided.')
+              'exit, and lineat() of those same two offsets; the line/column/line-text arithmetic of both inputs is decided '
+              'exhaustively for all texts over {letter, LF, CR} up to length 4 (thorough: 6) and all offsets inside them. Longer texts, '
+              'other line-boundary characters and the offset == len(text) are not decided.')
 LEVEL_NOTE = 'Trusted: str.splitlines(True) ends lines at \\n, \\r and \\r\\n (and keeps the terminators).'
 EXPLANATION = ('Static analysis of /repo sources, TatSu not imported. split_block_lines is resolved through helper functions to '
                'its splitting primitive; regex literals are compiled to NFAs by the checker and compared by language inclusion.')
@@ -214,4 +216,69 @@ def r2_one_index(a, tier):
     return rep
 
 
-RULES = [r0_line_splitter, r1_parseinfo, r2_one_index]
+def r3_line_index_exhaustive(a, tier):
+    import itertools
+    from collections import namedtuple
+
+    from ..minieval import Unsupported
+    from ..modelinterp import Bound, Hook, ModelInterp, Stub
+    n = 6 if tier == 'thorough' else 4
+    rep = RuleReport(
+        'C12.R3',
+        f'line index, exhaustively over the abstract alphabet {{letter, LF, CR}}: for every text up to length {n} and every offset '
+        'inside it, PosLine.build_line_cache and the lineinfo / lineat / poscol methods of TextLinesCursor, BufferCursor and Buffer '
+        '(all interpreted on stand-in inputs) report the line number, column, line start and line text obtained by splitting the '
+        'text at LF, CR and CRLF; lineat and poscol of the cursors agree with lineinfo',
+        floor=300,
+    )
+    PL = namedtuple('PosLine', 'startpos lineno length')
+    hooks = {'PosLine': Hook(PL), 'LineInfo': Hook(lambda **kw: kw)}
+    blc = a.p.func('tatsu.input.infos.PosLine.build_line_cache')
+    impls = [
+        ('tatsu.input.textlines.TextLinesCursor', lambda cache, idx, text: Stub('tatsu.input.textlines.TextLinesCursor', pos=0, _input=Stub(
+            'tatsu.input.textlines.TextLines', line_cache=cache, line_index=idx, textstr=text, len=len(text), source='src'))),
+        ('tatsu.input.buffer.BufferCursor', lambda cache, idx, text: Stub('tatsu.input.buffer.BufferCursor', pos=0, buffer=Stub(
+            'tatsu.input.buffer.Buffer', linecache=cache, lineindex=idx, text=text, source='src'), textstr=text)),
+        ('tatsu.input.buffer.Buffer', lambda cache, idx, text: Stub('tatsu.input.buffer.Buffer', pos=0, linecache=cache, lineindex=idx,
+                                                                 text=text, source='src', len=len(text))),
+    ]
+    n_bad = 0
+    for k in range(0, n + 1):
+        for tup in itertools.product('a\n\r', repeat=k):
+            text = ''.join(tup)
+            lines = text.splitlines(True)
+            it = ModelInterp(a, dict(hooks))
+            try:
+                cache, count = it.call_fn(blc, [lines, len(text)])
+            except Unsupported as e:
+                raise AnalysisError(f'cannot interpret build_line_cache: {e}') from e
+            idx = [('src', i) for i in range(len(lines))]
+            # oracle
+            want = []
+            start = 0
+            for ln, line in enumerate(lines):
+                for j in range(len(line)):
+                    want.append((ln, j, start, line))
+                start += len(line)
+            for q, mk in impls:
+                for p_, w in enumerate(want):
+                    cur = mk(cache, idx, text)
+                    it = ModelInterp(a, dict(hooks))
+                    try:
+                        li = it.apply(it.get_attr(cur, 'lineinfo'), [p_], {})
+                        la = it.apply(it.get_attr(cur, 'lineat' if q != 'tatsu.input.buffer.Buffer' else 'posline'), [p_], {})
+                        pc = it.apply(it.get_attr(cur, 'poscol'), [p_], {})
+                    except Unsupported as e:
+                        raise AnalysisError(f'cannot interpret {q}.lineinfo/lineat/poscol: {e}') from e
+                    got = (li['line'], li['col'], li['start'], li['text'])
+                    ok = got == w and la == w[0] and pc == w[1]
+                    rep.add({'impl': q.split('.')[-1], 'text': text, 'offset': p_, 'lineinfo': list(got), 'lineat': la, 'poscol': pc, 'ok': ok})
+                    if not ok and n_bad < 8:
+                        n_bad += 1
+                        rep.fail(f'{q}.lineinfo', f'lineindex:{text!r}:{p_}', f'{q.split(".")[-1]} on the text {text!r}, offset {p_}: lineinfo gives '
+                                 f'(line, col, start, text) = {got}, lineat/posline {la}, poscol {pc}; splitting the text at its line breaks '
+                                 f'gives {w}', a.p.func(f'{q}.lineinfo').loc)
+    return rep
+
+
+RULES = [r0_line_splitter, r1_parseinfo, r2_one_index, r3_line_index_exhaustive]
